@@ -57,7 +57,7 @@ impl Check for C02 {
         tier.pick(50_000, 1_000_000)
     }
     fn strategy(&self, _tier: Tier) -> BoxedStrategy<Case> {
-        (gt::choices(170), gt::choices(60))
+        (gt::choices(180), gt::choices(60))
             .prop_map(|(task, interp)| Case { task, interp })
             .boxed()
     }
@@ -192,7 +192,7 @@ impl Check for C19 {
     fn strategy(&self, _tier: Tier) -> BoxedStrategy<FlagCase> {
         let c = c01::cfg();
         prop_oneof![
-            3 => (gt::choices(170), gt::choices(60)).prop_map(|(task, interp)| FlagCase::External { task, interp }),
+            3 => (gt::choices(180), gt::choices(60)).prop_map(|(task, interp)| FlagCase::External { task, interp }),
             2 => (ga::program(&c), ga::shaped_program(&c, 1), any::<bool>(), g::raw_interp(5, 0, 2, 5))
                 .prop_map(|(left, right, mu, raw)| FlagCase::Strong { left, right, mu, raw }),
             // rules with three arithmetic / interval terms in one atom (several fresh variables of one
